@@ -11,6 +11,7 @@
 package zzverif
 
 import (
+	"crypto/rand"
 	"encoding/hex"
 	"encoding/json"
 	"fmt"
@@ -157,6 +158,44 @@ func Attacker(name string, honest []byte, n int) []byte {
 	}
 	return out
 }
+
+// Observers of the ideal-functionality logs. They exist only inside the engine;
+// natively they return nothing and harnesses guard their use with Symbolic().
+func Draws() [][]byte {
+	if tape == nil {
+		return nil
+	}
+	return tape.served
+}
+func WeakDraws() int        { return 0 }
+func SealKeys() [][]byte    { return nil }
+func SealNonces() [][]byte  { return nil }
+func BaseScalars() [][]byte { return nil }
+func ScryptSalts() [][]byte { return nil }
+func ScryptWork() []int     { return nil }
+func Same(a, b []byte) bool { return string(a) == string(b) }
+func DependsOn(a, b []byte) bool { return false }
+
+type tapeReader struct {
+	n      int
+	served [][]byte
+}
+
+var tape *tapeReader
+
+func (t *tapeReader) Read(p []byte) (int, error) {
+	b := Bytes(fmt.Sprintf("rand#%d", t.n), len(p))
+	t.n++
+	copy(p, b)
+	t.served = append(t.served, append([]byte(nil), b...))
+	return len(p), nil
+}
+
+// InstallTape makes crypto/rand deterministic in a native replay: the k-th
+// draw returns the model's value of draw k (zeros if the model has none).
+// Inside the engine crypto/rand.Read is an ideal functionality and this is a
+// no-op.
+func InstallTape() { tape = &tapeReader{}; rand.Reader = tape }
 
 // ChunkSize is the STREAM chunk size: 65536 natively, the rebased size inside the engine.
 func ChunkSize() int { return 65536 }
